@@ -99,6 +99,18 @@ def ctree(tree, specs):
     return acc
 
 
+def citree(tree, specs):
+    kind = tree[0]
+    if kind == "L":
+        return f"(C11.ILeaf {L.citrace(specs[tree[1]])})"
+    if kind == "N":
+        return f"(C11.INode {citree(tree[1], specs)} {citree(tree[2], specs)})"
+    acc = "(C11.ILeaf C11.iempty)"
+    for c in tree[1]:
+        acc = f"(C11.INode {acc} {citree(c, specs)})"
+    return acc
+
+
 # ------------------------------------------------------------------------------------------------
 # the real metric functions
 def metric_values(trace, sp, ex):
@@ -182,6 +194,39 @@ def oracle_order(specs, tree1, tree2):
     for f, name in FIELDS:
         if a[f] != b[f]:
             return name, a[f], b[f]
+    return None
+
+
+def oracle_shared(specs):
+    """The per-test traces are cached and merged again and again: the same objects evaluated by
+    analyze_results in different groupings (same order) and repeatedly must give the same instruction
+    list and assertion positions, and must stay untouched themselves.  Returns (signature, message)|None."""
+    from pynguin.ga.fitness_metrics import analyze_results
+
+    leaves = [L.build_trace(s) for s in specs]
+    before = [repr(L.project(t)) for t in leaves]
+
+    def A(ts):
+        return analyze_results([_Res(t) for t in ts])
+
+    def part(t):
+        p = L.project(t)
+        return p["instr"], p["asserts"]
+    n = len(leaves)
+    results = [("flat", part(A(leaves)))]
+    if n >= 2:
+        k = 1 + (n - 1) // 2
+        results.append(("left-grouped", part(A([A(leaves[:k])] + leaves[k:]))))
+        results.append(("right-grouped", part(A(leaves[:k - 1 or 1] + [A(leaves[k - 1 or 1:])]))))
+    results.append(("flat-again", part(A(leaves))))
+    if [repr(L.project(t)) for t in leaves] != before:
+        return ("merge:mutates-argument:cached-trace",
+                "analyze_results over cached traces changed one of them (e.g. executed assertion positions)")
+    for name, r in results[1:]:
+        if r != results[0][1]:
+            what = "executed_instructions" if r[0] != results[0][1][0] else "executed_assertions"
+            return (f"grouping:{what}", f"{name} merge of the same traces in the same order gives {what} "
+                    f"{r[1] if what == 'executed_assertions' else '...'} instead of {results[0][1][1] if what == 'executed_assertions' else '...'}")
     return None
 
 
@@ -282,6 +327,31 @@ def real_run_families(ctx, n_runs):
     return fams
 
 
+def assertion_run_families(ctx, n_runs):
+    """Real traces with executed assertions (see _assert_child); the in-process oracle on the real
+    TestSuiteAssertionCheckedCoverageFunction reports its failures here."""
+    from concurrent.futures import ThreadPoolExecutor
+
+    jobs = [{"seed": ctx.rng.randrange(10**6), "n_tests": ctx.rng.choice([3, 4, 6])} for _ in range(n_runs)]
+    with ThreadPoolExecutor(max_workers=min(8, max(1, n_runs))) as ex:
+        res = list(ex.map(lambda j: L.run_forked(_assert_child, j, 240), jobs))
+    fams = []
+    for job, r in zip(jobs, res):
+        if "error" in r:
+            ctx.count("assert-run:error")
+            ctx.notes.append(f"assertion run {job}: {r['error']}")
+            continue
+        ctx.count("assert-run:ok")
+        ctx.count("assert-run:executed-assertions", r["n_assertions"])
+        ctx.count("assert-run:coverage-evaluations", 2 * len(r["covs"]) + 3)
+        for sig, msg in r["failures"]:
+            ctx.fail("assert-run:" + sig, msg, {"job": job, "coverages": r["covs"],
+                                                "specs": [L.spec_to_json(s) for s in r["specs"]]})
+        if r["specs"]:
+            fams.append({"kind": "real-assert", "reg": r["reg"], "specs": r["specs"][:6]})
+    return fams, sum(len(r.get("failures", [])) for r in res)
+
+
 def _extract_traces(algorithm, suite, executor, cluster, job):
     import pynguin.ga.computations as ff
 
@@ -296,6 +366,144 @@ def _extract_traces(algorithm, suite, executor, cluster, job):
            "preds": [(k, v.line_no, v.code_object_id) for k, v in sp.existing_predicates.items()],
            "lines": [(k, v.line_number) for k, v in sp.existing_lines.items()], "firstlines": {}}
     return {"specs": specs, "reg": reg}
+
+
+# ------------------------------------------------------------------------------------------------
+# real traces WITH executed assertions: a module instrumented for checked coverage, hand-built test cases with
+# assertions executed by the real executor (test instrumentation + RemoteAssertionExecutionObserver)
+ASSERT_CALLS = [  # (call template, expected-value function, argument generator)
+    ("alpha({0})", lambda x: x + 1, lambda r: (r.randrange(-5, 50),)),
+    ("beta({0})", lambda y: "negative" if y < 0 else "non-negative", lambda r: (r.randrange(-5, 6),)),
+    ("delta({0}, {1})", lambda a, b: a - b if a > b else (0 if a == b else b - a),
+     lambda r: (r.randrange(0, 6), r.randrange(0, 6))),
+    ("gamma([{0}, {1}])", lambda a, b: [a * 2, b * 2], lambda r: (r.randrange(0, 9), r.randrange(0, 9))),
+    ("epsilon('{0}')", lambda s: s.count("a"), lambda r: ("".join(r.choice("abc") for _ in range(r.randrange(0, 5))),)),
+]
+
+
+def _assert_child(job):
+    """Forked child.  Returns per-test trace projections (with instruction tags and assertion positions),
+    the registry and the failures of the in-process oracle on TestSuiteAssertionCheckedCoverageFunction."""
+    import importlib
+    import logging
+    import random
+    import shutil
+    import sys
+    import tempfile
+    from pathlib import Path
+
+    vlib.setup_impl_path()
+    logging.disable(logging.CRITICAL)
+    import libcst as cst
+
+    import pynguin.assertion.assertion as ass
+    import pynguin.configuration as config
+    import pynguin.ga.testcasechromosome as tcc
+    import pynguin.ga.testsuitechromosome as tsc
+    import pynguin.testcase.testcase as tc
+    from pynguin.ga.computations import TestSuiteAssertionCheckedCoverageFunction
+    from pynguin.instrumentation.machinery import install_import_hook
+    from pynguin.instrumentation.tracer import SubjectProperties
+    from pynguin.testcase.execution import RemoteAssertionExecutionObserver, TestCaseExecutor
+    from pynguin.utils.naming import get_module_alias
+
+    rng = random.Random(job["seed"])
+    mod = "c11a_shapes"
+    tmp = Path(tempfile.mkdtemp(prefix="verif-c11a-", dir="/var/tmp"))
+    try:
+        shutil.copy(vlib.VERIF / "corpus" / "C35_sut" / "shapes.py", tmp / f"{mod}.py")
+        sys.path.insert(0, str(tmp))
+        config.configuration = config.Configuration(
+            algorithm=config.Algorithm.RANDOM, project_path=str(tmp),
+            test_case_output=config.TestCaseOutputConfiguration(output_path=""), module_name=mod)
+        config.configuration.statistics_output.coverage_metrics = [config.CoverageMetric.CHECKED]
+        alias = get_module_alias(mod)
+
+        def stmt(code, var):
+            return tc.Statement(node=cst.parse_module(code + "\n").body[0], bound_variable=var, bound_type=None)
+
+        def make_test():
+            t = tc.TestCase()
+            for k in range(rng.choice([1, 1, 2])):
+                tmpl, fn, gen = rng.choice(ASSERT_CALLS)
+                args = gen(rng)
+                t.add_statement(stmt(f"var_{k} = {alias}." + tmpl.format(*args), f"var_{k}"))
+                if rng.random() < 0.85:
+                    t.get_statement(-1).assertions.append(ass.ObjectAssertion(f"var_{k}", fn(*args)))
+            return t
+
+        sp = SubjectProperties()
+        failures = []
+        with install_import_hook(mod, sp):
+            with sp.instrumentation_tracer:
+                importlib.reload(importlib.import_module(mod))
+            executor = TestCaseExecutor(sp)
+            executor.set_instrument(True)
+            executor.add_remote_observer(RemoteAssertionExecutionObserver())
+            cov_fn = TestSuiteAssertionCheckedCoverageFunction(executor)
+            chroms = [tcc.TestCaseChromosome(make_test()) for _ in range(job["n_tests"])]
+            tags, aids = {}, {}
+
+            def proj(trace):
+                return L.project(trace,
+                                 lambda i: tags.setdefault((i.code_object_id, i.node_id, i.opcode, i.lineno, i.instr_original_index, repr(i.argument)), len(tags)),
+                                 lambda a: aids.setdefault(id(a), len(aids)))
+
+            def digests(cs):
+                return [None if c.get_last_execution_result() is None else repr(proj(c.get_last_execution_result().execution_trace)) for c in cs]
+
+            def suite_of(cs):
+                s = tsc.TestSuiteChromosome()
+                for c in cs:
+                    s.add_test_case_chromosome(c)
+                return s
+
+            covs = []
+            try:
+                prev = None
+                for k in range(1, len(chroms) + 1):
+                    suite = suite_of(chroms[:k])          # the chromosomes keep their cached results
+                    cov = cov_fn.compute_coverage(suite)
+                    d = digests(chroms[:k])
+                    again = cov_fn.compute_coverage(suite)
+                    if digests(chroms[:k]) != d:
+                        failures.append(("merge:mutates-argument:cached-trace",
+                                         f"evaluating the suite of {k} tests changed a cached per-test trace (assertion positions)"))
+                    if again != cov:
+                        failures.append(("reevaluation:assertion_checked_coverage",
+                                         f"coverage of the unchanged suite of {k} tests changed {cov} -> {again}"))
+                    if prev is not None and cov < prev - 1e-12:
+                        failures.append(("monotone:assertion_checked_coverage",
+                                         f"adding test {k - 1} lowered assertion-checked coverage {prev} -> {cov}"))
+                    prev = cov
+                    covs.append(cov)
+                order = list(range(len(chroms)))
+                rng.shuffle(order)
+                shuffled = cov_fn.compute_coverage(suite_of([chroms[i] for i in order]))
+                if covs and shuffled != covs[-1]:
+                    failures.append(("order:metric:assertion_checked_coverage",
+                                     f"assertion-checked coverage depends on the order of the tests: {covs[-1]} vs {shuffled} ({order})"))
+                # fresh executions of the same test cases give the ground truth for the whole suite
+                fresh = [tcc.TestCaseChromosome(c.test_case.clone()) for c in chroms]
+                fresh_cov = cov_fn.compute_coverage(suite_of(fresh))
+                final = cov_fn.compute_coverage(suite_of(chroms))
+                if covs and fresh_cov != final:
+                    failures.append(("stale:assertion_checked_coverage",
+                                     f"suite with cached results has coverage {final}, the same tests executed freshly {fresh_cov}"))
+            except Exception as e:  # noqa: BLE001 - e.g. IndexError of the slicer on a corrupted position
+                failures.append((f"assertion_checked_coverage:raises:{type(e).__name__}", f"{type(e).__name__}: {e}"))
+            # projections of freshly executed tests for the model comparison in the parent
+            specs = []
+            for c in chroms:
+                r = executor.execute(c.test_case.clone())
+                specs.append(proj(r.execution_trace))
+            reg = {"codes": list(sp.existing_code_objects),
+                   "preds": [(k, v.line_no, v.code_object_id) for k, v in sp.existing_predicates.items()],
+                   "lines": [(k, v.line_number) for k, v in sp.existing_lines.items()], "firstlines": {}}
+        return {"specs": specs, "reg": reg, "failures": failures, "covs": covs,
+                "n_assertions": sum(len(s["asserts"]) for s in specs)}
+    finally:
+        shutil.rmtree(tmp, ignore_errors=True)
 
 
 # ------------------------------------------------------------------------------------------------
@@ -321,8 +529,9 @@ def check_family(ctx, fam, cases, recs):
     metrics = None
     if all_valid:
         metrics = metric_values(merged, sp, ex)
-    case = "(C11.Build_case %s %s %s %s %s %s %s %s)" % (
+    case = "(C11.Build_case %s %s %s %s %s %s %s %s %s %s)" % (
         L.cregistry(ids), L.czlist(ex[0]), L.czlist(ex[1]), L.czlist(ex[2]), ctree(tree, specs),
+        citree(tree, specs), L.citrace(obs),
         L.ctrace(obs), cbool(all_valid), cmetrics(metrics) if metrics else "None")
     cases.append(case)
     recs.append({"family": family_to_json({**fam, "tree": tree, "ex": ex}),
@@ -332,6 +541,13 @@ def check_family(ctx, fam, cases, recs):
     if mutated:
         failures += 1
         ctx.fail("merge:mutates-argument:" + mutated[0], f"{mutated[0]} changed the trace that was merged in", replay)
+    # --- S: cached traces merged repeatedly and in different groupings (instruction part)
+    if any(s.get("asserts") for s in specs):
+        ctx.count("families-with-executed-assertions")
+    r = oracle_shared(specs)
+    if r:
+        failures += 1
+        ctx.fail(r[0], r[1], replay)
     # --- S: order / grouping independence of the trace
     tree2 = gen_tree(rng, range(n))
     r = oracle_order(specs, tree, tree2)
@@ -419,7 +635,7 @@ def run(ctx: vlib.Ctx):
     ctx.log("static development checked")
     if not ctx.quick:
         ctx.coqchk()
-    n_valid, n_mal, n_runs = (160, 50, 2) if ctx.quick else (3600, 1000, 16)
+    n_valid, n_mal, n_runs, n_aruns = (160, 50, 2, 2) if ctx.quick else (3600, 1000, 16, 12)
     corpus = [family_from_json(j) for j in json.loads((vlib.VERIF / "corpus" / "C11.json").read_text())]
     fams = list(corpus)
     fams += [gen_family(ctx.rng, "valid") for _ in range(n_valid)]
@@ -431,6 +647,12 @@ def run(ctx: vlib.Ctx):
     ctx.log(f"{len(fams)} families generated (incl. real runs)")
     cases, recs = [], []
     n_or = 0
+    try:
+        afams, n_fail = assertion_run_families(ctx, n_aruns)
+        fams += afams
+        n_or += n_fail
+    except Exception as e:  # noqa: BLE001
+        ctx.notes.append(f"assertion runs unavailable: {type(e).__name__}: {e}")
     for fam in fams:
         n_or += check_family(ctx, fam, cases, recs)
     ctx.log(f"implementation runs and direct oracle done ({n_or} oracle failures)")
@@ -470,6 +692,11 @@ def replay(ctx, path):
     vlib.setup_impl_path()
     d = json.loads(open(path).read())
     rep = d.get("replay") or d["no_longer_checks"][0]["detail"]["first_mismatch"]
+    if "family" not in rep:
+        # failure of the in-process oracle on real traces with executed assertions: re-run that job
+        r = L.run_forked(_assert_child, rep["job"], 240)
+        print("assertion run", rep["job"], "->", {k: v for k, v in r.items() if k in ("failures", "covs", "error")})
+        return 0
     fam = family_from_json(rep["family"])
     cases, recs = [], []
     n = check_family(ctx, fam, cases, recs)
